@@ -162,6 +162,7 @@ Consume ==
                          \cup (IF ev.e = "cb" /\ ev.raise THEN {IF pc' = "crashed" THEN "fatal" ELSE "swallow"} ELSE {})
                          \cup (IF ev.e = "cb" /\ ev.adv > 0 THEN {"overrun"} ELSE {})
                          \cup (IF ev.e = "cb" /\ ev.w # <<>> THEN {"write"} ELSE {})
+                         \cup (IF ev.e = "cb" /\ "endc" \in DOMAIN ev /\ ev.endc THEN {"end_from_callback"} ELSE {})
                          \cup (IF ev.e = "cb" /\ ev.k = "execute" /\ ev.st = "go" THEN {"sm_go"} ELSE {})
          /\ lastSw' = (ev.e = "cb" /\ ev.raise)
          /\ UNCHANGED adopted /\ l' = l + 1
